@@ -115,6 +115,15 @@ func runC03(c any, x *kit.Ctx) {
 			src = bytes.NewReader(file)
 		case "stream":
 			src = drv.PlainReader{R: bytes.NewReader(file)}
+		case "pipe":
+			// an *os.File over a pipe: has a Seek method, is not seekable
+			pr, pw, err := os.Pipe()
+			if err != nil {
+				panic(err)
+			}
+			go func() { pw.Write(file); pw.Close() }()
+			src = pr
+			cleanup = func() { pr.Close() }
 		case "onebyte":
 			src = iotest.OneByteReader(bytes.NewReader(file)) // short reads: an environment deviation
 		case "half":
@@ -315,7 +324,7 @@ func genC03(tier string, emit func(any)) {
 	for _, sq := range seqs {
 		for _, cont := range conts {
 			for _, kind := range []string{"mh", "sorted", "insertion"} {
-				apis := []string{"gen-bytes", "gen-file", "gen-stream", "gen-onebyte", "gen-half"}
+				apis := []string{"gen-bytes", "gen-file", "gen-stream", "gen-onebyte", "gen-half", "gen-pipe"}
 				if kind != "insertion" {
 					apis = append(apis, "rog-bytes", "rog-file", "rog-rs", "ro-at", "ro-bytes")
 				} else {
@@ -348,7 +357,7 @@ func init() {
 		Run:    runC03,
 		Decode: kit.DecodeAs[C03Case],
 		Rule: "every payload (block sequences up to the bound incl. duplicates, equal digests under different hash functions/codecs, identity, mixed widths) laid out by the reference encoder as CARv1/CARv2 (padded, with embedded index, with null padding) x index kind x API and source kind " +
-			"(GenerateIndex/LoadIndex over bytes.Reader, *os.File, plain stream, one-byte and half-buffer short-read streams; ReadOrGenerateIndex; NewReadOnly; OpenReadable) x StoreIdentityCIDs x ZeroLengthSectionAsEOF x MaxIndexCidSize; every alphabet CID is queried; non-trivial = >=2 records or a repeated digest",
+			"(GenerateIndex/LoadIndex over bytes.Reader, *os.File, plain stream, one-byte and half-buffer short-read streams, *os.File over a pipe; ReadOrGenerateIndex; NewReadOnly; OpenReadable) x StoreIdentityCIDs x ZeroLengthSectionAsEOF x MaxIndexCidSize; every alphabet CID is queried; non-trivial = >=2 records or a repeated digest",
 		Bound: func(tier string) map[string]any {
 			if tier == "thorough" {
 				return map[string]any{"seq_len": 3, "alphabet": 12}
